@@ -67,6 +67,9 @@ def run_int(W, cfg):
     if m == 'trapz':
         W.ob('trapezoid rule (exact for piecewise-linear data)', K * s1.integrate(method=m), K * _trap(grid, v1, list(range(n))))
         for k in range(1, n - 1):
+            W.ob(f'one-sided bounds, additive at sample {k}', K * (s1.integrate(end=W.const(grid[k]), method=m) + s1.integrate(start=W.const(grid[k]), method=m)), K * s1.integrate(method=m))
+            W.ob(f'one-sided bound = the other bound at the end of the grid [{k}]', K * s1.integrate(start=W.const(grid[k]), method=m), K * s1.integrate(W.const(grid[k]), W.const(grid[-1]), method=m))
+        for k in range(1, n - 1):
             W.ob(f'additive at sample {k}', K * (s1.integrate(W.const(grid[0]), W.const(grid[k]), method=m) + s1.integrate(W.const(grid[k]), W.const(grid[-1]), method=m)), K * s1.integrate(method=m))
         if unit == 'm':
             return
